@@ -49,6 +49,8 @@ def to_funwave(
 
     if not stack_dims or dimsizes == {1}:
         # Single spectrum in object, write directly to txt file
+        if stack_dims:
+            darr = darr.squeeze(stack_dims, drop=True)
         funwave_spectrum(darr, filename)
 
     else:
